@@ -53,6 +53,12 @@ def trace_inputs(d, gb, prop, object_bits, extra_flags, entry, cex_defs=None):
             if o not in objs: objs[o] = {}; order.append(o)
             objs[o].setdefault('.' + m.group(2), v.get('data'))
             continue
+        if fn == entry and st.get('assignmentType') == 'variable' and re.match(r'^[A-Za-z_]\w*(\.\w+)+$', lhs) and 'binary' in v:
+            args.setdefault(lhs, int(v['binary'], 2))
+        if fn == entry and st.get('assignmentType') == 'variable' and re.match(r'^[A-Za-z_]\w*$', lhs) and v.get('name') == 'struct':
+            for mem in v.get('members', []):
+                mv = mem.get('value', {})
+                if 'binary' in mv: args.setdefault(lhs + '.' + mem.get('name', ''), int(mv['binary'], 2))
         if fn == entry and st.get('assignmentType') == 'variable' and re.match(r'^[A-Za-z_]\w*$', lhs) and not lhs.startswith(('__', 'return_value_')):
             if 'binary' in v: args.setdefault(lhs, int(v['binary'], 2))
             elif v.get('data') in ('TRUE', 'FALSE'): args.setdefault(lhs, 1 if v['data'] == 'TRUE' else 0)
@@ -232,9 +238,56 @@ int main(int argc, char** argv) {
     doc['native'] = 'reproduced' if p.returncode != 0 else 'not-reproduced'
     doc['replay_driver'] = code; doc['replay_argv'] = argv
 
+def packet_kind_replay(doc, inp, r, work, root, repo):
+    """Packet::create / Packet(msgType, data, size): build the message natively and compare the payload kind with the oracle"""
+    fn = r['enforce']; a = inp['args']
+    bufs = [o for o in inp['objects'] if 'bytes' in o]
+    n = a.get('n')
+    if n is None or not bufs: doc['native'] = 'no-counterexample'; return
+    if fn.endswith('Packet_create'):
+        t = fieldval({'objects': [{'fields': {'.type': str(a.get('t', 0))}}]}, '.type') if isinstance(a.get('t'), int) else None
+        tt = None
+        for o in inp['objects']:
+            for k, v in o.get('fields', {}).items():
+                pass
+        tt = a.get('t.type')
+        mk = re.search(r'-DKIND_FIX=(0x[0-9a-fA-F]+)', r.get('cmd', ''))
+        if tt is None and mk: tt = int(mk.group(1), 16)
+        if tt is None: doc['native'] = 'no-counterexample'; return
+        payload = bytes.fromhex(bufs[-1]['bytes'])[:n]
+        msgtype = (tt >> 8) & 0xFF
+        hdr = bytes(12) + bytes([0, tt & 0xFF]) + len(payload).to_bytes(2, 'big')
+        msg = hdr + payload
+    else:
+        msg = bytes.fromhex(bufs[-1]['bytes'])[:n]; msgtype = a.get('t', 0) & 0xFF
+    code = PRE + spec_native_prelude(root) + '''int main(int argc, char** argv) {
+  auto in = unhex(argv[1]); std::vector<uint8_t> copy(in); unsigned mt = atoi(argv[2]);
+  const uint8_t* b = copy.data(); size_t n = copy.size();
+  if (!VALID_MSG(b, n)) { printf("message not valid at message level\\n"); return 0; }
+  ASAM::CMP::Packet p((ASAM::CMP::CmpHeader::MessageType)mt, b, n);
+  uint32_t T = PTYPE(mt, b); uint32_t got = p.getPayload().getType().getType();
+  const uint8_t* d = b + 16; size_t len = BE16(b, 14);
+  bool must = KIND_MUST_GEN(T, d, len), may = KIND_MAY_GEN(T, d, len);
+  printf("kind=0x%04x returned=0x%04x may_be_typed=%d must_be_typed=%d\\n", T, got, must, may);
+  if (got == T && !must) return 3;
+  if (may && got != T) return 4;
+  if (got != T && got != 0) return 5;
+  return 0;
+}
+'''
+    exe = build_driver(work, repo, 'drv_kind', code)
+    argv = [msg.hex(), str(msgtype)]
+    p = subprocess.run([exe] + argv, stdout=subprocess.PIPE, stderr=subprocess.PIPE, timeout=60)
+    doc['native_call'] = f"Packet(msgType={msgtype}, bytes={msg.hex()[:200]}, size={len(msg)})"
+    doc['native_observed'] = p.stdout.decode().strip(); doc['native_stderr'] = p.stderr.decode()[-600:]
+    doc['native_expected'] = 'typed => consistent & no bus-error flags;  consistent & error-free => typed'
+    doc['native'] = 'reproduced' if p.returncode != 0 else 'not-reproduced'
+    doc['replay_driver'] = code; doc['replay_argv'] = argv
+
 def family_of(r, root):
     name = r['name']
     if (r['enforce'] or '') in VALIDATORS: return validator_replay
+    if (r['enforce'] or '').endswith('Packet_create') or 'Packet_ctor__CmpHeader_MessageType' in (r['enforce'] or ''): return packet_kind_replay
     if 'SegmentedPacket_ctor__uint8' in (r['enforce'] or '') or (r['enforce'] or '').endswith('SegmentedPacket_addSegment'): return segpkt_replay
     import gen_layout_specs as G
     classes, payloads = G.parse(os.path.join(root, 'specs', 'layout', 'wire.tbl'))
